@@ -1,6 +1,7 @@
 import NeoFS.Base.Parse
 import NeoFS.Gen.Handlers
 import NeoFS.Model.CtlAuth
+import NeoFS.Model.CtlConc
 import NeoFS.Model.ReqAuth
 import NeoFS.Model.GetRelay
 /-!
@@ -40,15 +41,49 @@ def verdict (p : Prog) (forced : List (Tag × Out)) : Bool :=
 
 def findHandler (l : List (String × Prog)) (h : String) : Option Prog := (l.find? (·.1 == h)).map (·.2)
 
-/-- Control services: the hand model of `isValidRequest` says whether the request is acceptable (key 1 is
-the configured administrator key); an unacceptable request is expected to be denied iff the regenerated
+/-- Control services: the hand model of `isValidRequest` says whether the request is acceptable (keys 1 and 3
+are the configured administrator keys); an unacceptable request is expected to be denied iff the regenerated
 skeleton performs no effect while the signature verification stands denied. -/
 def ctlVerdict (l : List (String × Prog)) (h sc : String) : String :=
   match findHandler l h, CtlAuth.reqOfKind sc with
   | some p, some r =>
-    if CtlAuth.isValidRequest [1] r == .ok then "=> passed"
+    if CtlAuth.isValidRequest [1, 3] r == .ok then "=> passed"
     else if verdict p [(.ctlSig, .deny)] then "=> denied" else "=> passed"
   | _, _ => "=> bad-op"
+
+/-! ### op `crace`: one control server, many requests in flight (Model/CtlConc.lean)
+
+The requests of one method are threads of the concurrent model, run under the schedule the engine forces (all of
+them marshal their signed data, then all of them verify); by `C32.concurrent_verdicts_are_sequential` any other
+schedule gives the same verdicts (discipline `fresh`: `C32.auth_path_shares_nothing_mutable` shows from the
+regenerated shared-state facts that it is the one the code follows). A request that is not acceptable is denied iff the regenerated skeleton of the
+method performs no effect while the signature verification stands denied. -/
+
+def rpcRaceKinds : List String := ["g1", "g2", "fo", "wk", "ns", "bs"]
+
+def rpcRaceStep (o : OpLine) : String :=
+  let r : Option String := do
+    let hs ← match ← o.get? "svc" with
+      | "ctl" => some Gen.controlHandlers
+      | "irctl" => some Gen.irControlHandlers
+      | _ => none
+    let names := (← o.get? "ms").splitOn ","
+    let progs ← names.mapM (findHandler hs)
+    if names.eraseDups.length != names.length then none
+    let sync ← o.nat? "sync"
+    let n ← o.nat? "n"
+    let counts ← rpcRaceKinds.mapM (fun k => o.nat? k)
+    if sync > 1 || n < 1 || n > 5000 || counts.any (· > 16) || counts.sum == 0 then none
+    let reqs ← (rpcRaceKinds.zip counts).mapM (fun kc => (CtlConc.raceReq kc.1).map (List.replicate kc.2))
+    -- keys 1 and 3 are the two configured administrator keys
+    let vs := CtlConc.barrierVerdicts .fresh [1, 3] reqs.flatten
+    let okN := (vs.filter (· == some CtlAuth.Verdict.ok)).length
+    let badN := vs.length - okN
+    let deniedPerRound := (progs.map (fun p => if verdict p [(.ctlSig, .deny)] then badN else 0)).sum
+    let total := progs.length * vs.length * n
+    let denied := deniedPerRound * n
+    some ("=> ok passed=" ++ toString (total - denied) ++ " denied=" ++ toString denied)
+  r.getD "=> bad-op"
 
 /-! ### op `auth`: who is the request authenticated as (Model/ReqAuth.lean) -/
 
@@ -132,6 +167,7 @@ def rpcRelayStep (o : OpLine) : String :=
 
 def rpcStep (o : OpLine) : String :=
   if o.name == "auth" then rpcAuthStep o
+  else if o.name == "crace" then rpcRaceStep o
   else if o.name == "relay" then rpcRelayStep o
   else
   match o.name, o.get? "h", o.get? "sc" with
